@@ -113,8 +113,24 @@ func isSubsequence(a, b []byte) bool {
 	return i == len(a)
 }
 
+// c18Full is a writer that never takes a byte: every Write answers (0, io.ErrShortWrite) - a full fixed-size
+// capture buffer, a bufio.Writer whose underlying writer failed once. The program must still run to its end.
+// It counts the calls: a console device that keeps retrying is stopped after 100 000 of them.
+type c18Full struct{ n int }
+
+func (w *c18Full) Write(p []byte) (int, error) {
+	w.n++
+	if w.n > 100000 {
+		panic(watchdogPanic{w.n})
+	}
+	return 0, io.ErrShortWrite
+}
+func (w *c18Full) Bytes() []byte { return nil }
+
 func newC18Writer(kind int) c18Writer {
 	switch kind {
+	case 4:
+		return &c18Full{}
 	case 3:
 		return &c18Flaky{}
 	case 1:
@@ -229,6 +245,9 @@ func c18RunW(calls []c18Call, wk [2]int) []string {
 		var err error
 		if p := guard(func() { err = cpu.Run(bgCtx) }); p != nil {
 			if wp, ok := p.(watchdogPanic); ok {
+				if fw, isFull := out.(*c18Full); isFull && fw.n > 100000 {
+					return []string{fmt.Sprintf("the console writer answers every Write with (0, io.ErrShortWrite); the console device called it %d times for one character and the run never got on (PC=%04X)", fw.n, cpu.PC)}
+				}
 				o := out.Bytes()
 				if len(o) > 32 {
 					o = o[:32]
@@ -283,6 +302,8 @@ func c18RunW(calls []c18Call, wk [2]int) []string {
 		} else if !bytes.Equal(out.Bytes(), want[:wantSplit]) || !bytes.Equal(out2.Bytes(), want[wantSplit:]) {
 			d = append(d, fmt.Sprintf("SetStdout between two calls: first writer got % X (want % X), second writer got % X (want % X)", out.Bytes(), want[:wantSplit], out2.Bytes(), want[wantSplit:]))
 		}
+	} else if _, full := out.(*c18Full); full {
+		// nothing can arrive; the run itself is what is judged
 	} else if !bytes.Equal(out.Bytes(), want) {
 		g, w := out.Bytes(), want
 		if len(g) > 24 {
@@ -299,6 +320,9 @@ func c18RunW(calls []c18Call, wk [2]int) []string {
 		}
 	}
 	_, flaky1 := out.(*c18Flaky)
+	if _, full := out.(*c18Full); full {
+		flaky1 = true
+	}
 	_, flaky2 := out2.(*c18Flaky)
 	if nw := strings.Count(warn.String(), "\n"); nw != wantWarn && !flaky1 && !flaky2 { // (a failed write may be worth a warning of its own)
 		d = append(d, fmt.Sprintf("warnings: want %d got %d (%q)", wantWarn, nw, warn.String()))
@@ -327,7 +351,7 @@ func checkC18(c *Ctx) {
 			for _, cl := range calls {
 				names = append(names, cl.String())
 			}
-			c.Report("c18/cpm:"+key, n, "", c18Case{calls, wk}, append([]string{fmt.Sprintf("call sequence %v; JP 0; console writer kinds %v (0 bytes.Buffer, 1 Write only, 2 Write only with a second machine printing inside Write, 3 a writer whose 2nd Write fails)", names, wk)}, d...))
+			c.Report("c18/cpm:"+key, n, "", c18Case{calls, wk}, append([]string{fmt.Sprintf("call sequence %v; JP 0; console writer kinds %v (0 bytes.Buffer, 1 Write only, 2 Write only with a second machine printing inside Write, 3 a writer whose 2nd Write fails, 4 a writer that answers every Write with (0, io.ErrShortWrite))", names, wk)}, d...))
 			return false
 		}
 		return true
@@ -446,6 +470,15 @@ func checkC18(c *Ctx) {
 			}
 		}
 	}
+	// a console writer that never takes a byte: the program still runs to its end
+	wk = [2]int{4, 0}
+	for _, a := range calls[:6] {
+		for _, b := range calls[:6] {
+			if ok {
+				ok = run("sequence", []c18Call{a, b})
+			}
+		}
+	}
 	// every writer kind alone: all 256 byte values and the call pairs
 	for k1 := 1; k1 < 3 && ok; k1++ {
 		wk = [2]int{k1, 0}
@@ -472,7 +505,7 @@ func checkC18(c *Ctx) {
 	c.Transitions = n
 	c.Traces = n
 	c.Exhaustive = true
-	c.Rule = fmt.Sprintf("real tinycpm machine + real CPU.Run, a breakpoint after every call: function 2 with all 256 E values; function 9 with every string over the alphabet {00,23,25,7F,80,FF,'A'} of length 0..3 (%d strings) at addresses {0200,7FFF,FD00} and ending right below the BDOS entry (terminator at FE05), every single non-'$' byte value, lengths {0,1,255,256,257,4095,4096} across page boundaries; all call sequences of length <=%d over a 15-letter alphabet {fn2(x), fn2('$'), fn2(0), 3 fn9 strings, unsupported fn 0/1/10/255, OUT (0)/(1)/(255), IN (0)/(7)}; the host replacing the console writer (SetStdout) between two calls, for every pair of writer kinds {bytes.Buffer, a writer with only Write, such a writer inside whose Write a second independent tinycpm machine prints to its own console}; a writer whose 2nd Write fails, replaced afterwards (the replacement receives everything printed after it was installed); every writer kind alone with all 256 byte values and all call pairs; exit via JP 0; the command-line runner cmd/zexdoc (built from the current tree) on generated program images as zexdoc.cim / zexall.cim (-all), stdout through a pipe: all call pairs, long output (0..70000 bytes), runs that end abnormally (unsupported function, HALT in the program, unwritable -memprof path), the image delivered through a named pipe in two parts: stdout carries exactly the bytes printed before the end, the exit status is 0 exactly for the normal end. Oracle: console writer receives exactly the specified bytes in order; after every call PC is the instruction after the CALL, SP and the caller's code bytes are unchanged; final halt at FF03; exactly one warning per port!=0 write and per port read; nothing else in memory changed. Non-trivial: every case with at least one call (counted).", len(strs), depth)
+	c.Rule = fmt.Sprintf("real tinycpm machine + real CPU.Run, a breakpoint after every call: function 2 with all 256 E values; function 9 with every string over the alphabet {00,23,25,7F,80,FF,'A'} of length 0..3 (%d strings) at addresses {0200,7FFF,FD00} and ending right below the BDOS entry (terminator at FE05), every single non-'$' byte value, lengths {0,1,255,256,257,4095,4096} across page boundaries; all call sequences of length <=%d over a 15-letter alphabet {fn2(x), fn2('$'), fn2(0), 3 fn9 strings, unsupported fn 0/1/10/255, OUT (0)/(1)/(255), IN (0)/(7)}; the host replacing the console writer (SetStdout) between two calls, for every pair of writer kinds {bytes.Buffer, a writer with only Write, such a writer inside whose Write a second independent tinycpm machine prints to its own console}; a writer that never takes a byte (every Write answers io.ErrShortWrite: the program still runs to its end); a writer whose 2nd Write fails, replaced afterwards (the replacement receives everything printed after it was installed); every writer kind alone with all 256 byte values and all call pairs; exit via JP 0; the command-line runner cmd/zexdoc (built from the current tree) on generated program images as zexdoc.cim / zexall.cim (-all), stdout through a pipe: all call pairs, long output (0..70000 bytes), runs that end abnormally (unsupported function, HALT in the program, unwritable -memprof path), the image delivered through a named pipe in two parts: stdout carries exactly the bytes printed before the end, the exit status is 0 exactly for the normal end. Oracle: console writer receives exactly the specified bytes in order; after every call PC is the instruction after the CALL, SP and the caller's code bytes are unchanged; final halt at FF03; exactly one warning per port!=0 write and per port read; nothing else in memory changed. Non-trivial: every case with at least one call (counted).", len(strs), depth)
 	c.Bound = fmt.Sprintf("call sequences <=%d", depth)
 	c.Sample(c18Case{Calls: []c18Call{{Kind: "fn9", Str: []uint8{0xFF, 0x00, 'z'}, Addr: 0x03FE}, {Kind: "out", Port: 1}, {Kind: "fn2", E: '$'}}})
 	c.Assume("strings lie outside page 0, the BIOS pages and the stack (statement: 'arbitrary addresses outside the BIOS pages')")
